@@ -38,9 +38,11 @@ def prepare_parent():
 
 # ----------------------------------------------------------------------------- generator
 @st.composite
-def trees(draw, gran=1, passes=None, irregular=False, windowed=False, malleable=False, strategies=False):
-    n_parts = draw(st.integers(1, 3))
-    partitions = [{"id": i + 1, "q": draw(st.integers(1, 3))} for i in range(n_parts)]
+def trees(draw, gran=1, passes=None, irregular=False, windowed=False, malleable=False, strategies=False, tight=False):
+    # tight: one small partition, three tasks with 2-3 options each around `now`, mostly ordered by LessThan - capacity decides which options
+    # survive, which is where an over-eager pruning pass loses utility or validity
+    n_parts = 1 if tight else draw(st.integers(1, 3))
+    partitions = [{"id": i + 1, "q": draw(st.integers(1, 2 if tight else 3))} for i in range(n_parts)]
     now = draw(st.integers(0, 3))
     nodes = []
 
@@ -48,16 +50,16 @@ def trees(draw, gran=1, passes=None, irregular=False, windowed=False, malleable=
         nodes.append(n)
         return len(nodes) - 1
 
-    n_tasks = draw(st.integers(1, 3 if (windowed or malleable) else 4))
+    n_tasks = 3 if tight else draw(st.integers(1, 3 if (windowed or malleable) else 4))
     tasks = []
     leaves = 0
     for t in range(n_tasks):
         parts = sorted(draw(st.sets(st.sampled_from([p["id"] for p in partitions]), min_size=1, max_size=n_parts)))
         machines = draw(st.integers(1, 2))
-        duration = draw(st.integers(1, 4))
+        duration = draw(st.integers(1, 2 if tight else 4))
         utility = float(draw(st.integers(1, 3)))
-        n_opts = draw(st.integers(1, 3)) if leaves < 6 else 1
-        base = now + draw(st.integers(-1, 3))
+        n_opts = draw(st.integers(2 if tight else 1, 3)) if (leaves < 6 or tight) else 1
+        base = now + draw(st.integers(0 if tight else -1, 1 if tight else 3))
         starts = sorted({max(0, base + k * draw(st.integers(1, 2))) for k in range(n_opts)})
         if windowed and draw(st.integers(0, 2)) > 0:
             # one WindowedChoose instead of a Max over Chooses: any grid start in [start, last start]
@@ -82,7 +84,7 @@ def trees(draw, gran=1, passes=None, irregular=False, windowed=False, malleable=
         chooses = []
         # several execution strategies of one task under one Max: each option has its own machine count and duration
         # (the Python front-end builds exactly this for a task with more than one strategy)
-        variants = strategies and draw(st.integers(0, 2)) > 0
+        variants = strategies and (tight or draw(st.integers(0, 2)) > 0)
         for s_ in starts:
             if variants:
                 machines, duration = draw(st.integers(1, 2)), draw(st.integers(1, 4))
@@ -101,7 +103,7 @@ def trees(draw, gran=1, passes=None, irregular=False, windowed=False, malleable=
     pool = list(tasks)
     gi = 0
     while pool:
-        kind = draw(st.sampled_from(["task", "min", "lessthan", "lessthan", "min_lt"]))
+        kind = draw(st.sampled_from(["task", "lessthan", "lessthan"] if tight else ["task", "min", "lessthan", "lessthan", "min_lt"]))
         if kind == "task" or len(pool) == 1:
             groups.append(pool.pop(0))
         elif kind == "min":
@@ -131,7 +133,7 @@ def trees(draw, gran=1, passes=None, irregular=False, windowed=False, malleable=
                            "start": now, "duration": draw(st.integers(1, 3))}))
     root = add({"kind": "OBJECTIVE", "name": "root", "children": groups})
     return {"now": now, "gran": gran, "partitions": partitions, "nodes": nodes, "root": root,
-            "passes": list(passes) if passes is not None else draw(st.sampled_from([[], [], ["critical_path"], ["capacity_purge"], ["critical_path", "capacity_purge"]]))}
+            "passes": list(passes) if passes is not None else draw(st.sampled_from(([] if tight else [[]]) + [[], ["critical_path"], ["capacity_purge"], ["critical_path", "capacity_purge"]]))}
 
 
 # ----------------------------------------------------------------------------- decoding
@@ -402,6 +404,8 @@ def execute(case):
         if not cause and info["opt"] < best and "critical_path" in case.get("passes", []) and any(
                 n["kind"] == "WINDOWED" and n["duration"] % n["wgran"] for n in case["nodes"]):
             cause = ".windowed_end_bound_rounded_up_to_granularity"
+        if not cause and info["opt"] < best and "critical_path" in case.get("passes", []) and unequal_max_under_lessthan(case):
+            cause = ".max_of_unequal_durations_under_lessthan"
         V.append(Violation("optimum_differs", f"model optimum {info['opt']} != brute-force optimum {best} (decisions {best_dec}); case={case}",
                            "strl.optimum_differs" + (".model_lower" if info["opt"] < best else ".model_higher") + tag + cause))
     leaves = [i for i, n in enumerate(case["nodes"]) if n["kind"] in strl.LEAF_KINDS]
@@ -486,6 +490,24 @@ def infeasibility_cause(case):
     return ""
 
 
+def unequal_max_under_lessthan(case):
+    """A Max over Choose options of different durations (several execution strategies of one task) below a LessThan (finding F45)."""
+    nodes = case["nodes"]
+    below = set()
+    todo = [c for n in nodes if n["kind"] == "LESSTHAN" for c in n["children"]]
+    while todo:
+        i = todo.pop()
+        if i in below:
+            continue
+        below.add(i)
+        todo.extend(nodes[i].get("children", []))
+    for i in below:
+        n = nodes[i]
+        if n["kind"] == "MAX" and len({nodes[c]["duration"] for c in n["children"] if nodes[c]["kind"] == "CHOOSE"}) > 1:
+            return True
+    return False
+
+
 def exec_passes(case):
     """Metamorphic: the optimum is the same with every subset of the pruning passes."""
     res = CaseResult()
@@ -511,6 +533,8 @@ def exec_passes(case):
             why = ""
             if info["opt"] < info0["opt"] and "critical_path" in passes and any(n["kind"] == "WINDOWED" and n["duration"] % n["wgran"] for n in case["nodes"]):
                 why = ".windowed_end_bound_rounded_up_to_granularity"
+            if not why and info["opt"] < info0["opt"] and "critical_path" in passes and unequal_max_under_lessthan(case):
+                why = ".max_of_unequal_durations_under_lessthan"
             V.append(Violation("pass_changes_optimum", f"optimum {info['opt']} with passes {passes}, {info0['opt']} without; case={case}",
                                f"strl.pass_changes_optimum.{name}" + (".lower" if info["opt"] < info0["opt"] else ".higher") + why))
         if V:
@@ -558,6 +582,8 @@ CHECKS = [
     Check("coarse_discretization", exec_coarse, strategy=lambda tier: st.sampled_from([2, 3]).flatmap(lambda g: trees(gran=g, passes=[])), budget={"quick": 128, "thorough": 4000}),
     Check("strategy_trees", execute, strategy=lambda tier: st.booleans().flatmap(lambda irr: trees(strategies=True, irregular=irr)), budget={"quick": 256, "thorough": 8000}),
     Check("passes_strategies", exec_passes, strategy=lambda tier: trees(passes=[], strategies=True), budget={"quick": 192, "thorough": 4000}),
+    Check("congested_trees", execute, strategy=lambda tier: st.booleans().flatmap(lambda v: trees(tight=True, strategies=v)), budget={"quick": 1024, "thorough": 12000}),
+    Check("passes_congested", exec_passes, strategy=lambda tier: st.booleans().flatmap(lambda v: trees(passes=[], tight=True, strategies=v)), budget={"quick": 256, "thorough": 6000}),
     Check("windowed_trees", execute, strategy=lambda tier: trees(windowed=True), budget={"quick": 320, "thorough": 12000}),
     Check("malleable_trees", execute, strategy=lambda tier: trees(malleable=True, windowed=True), budget={"quick": 160, "thorough": 6000}),
 ]
